@@ -68,7 +68,10 @@ def shapes : List (String × String) :=
     `varDepsOk`), gtaRetry (e843e3f: defineXStmt revisited like defineStmt; multi-value declarations are not
     in the item language), addMethod (new: 3b1b93d) -/
 def sourceHashes : List (String × String) :=
-  [("Interpreter.parse", "136d4adfaacc6b12"),
+  [-- 113505f (round 5, F07-18): a text starting with `func` which is not a declaration is wrapped like any other
+   -- statement text AND now marked inFunc (before, the wrapper `func main` itself was declared); the decl/wrap/body
+   -- shapes above are unchanged, the statement texts of the item language never start with `func`
+   ("Interpreter.parse", "89cfb325e0b83139"),
    ("wrapInMain", "ad11654064a2b3f2"),
    ("Interpreter.firstToken", "cee33d39fe709cc4")] ++
   [("Interpreter.resizeFrame", "379b95ed0ad00014"),
